@@ -78,6 +78,82 @@ impl Cb {
 }
 
 
+
+/// dispatch through the generic traits only: every function here is bounded by a trait of
+/// `soa_derive` and nothing else, so the call resolves to the trait impl (or a provided method)
+pub mod tr {
+    use soa_derive::{SoASlice, SoASliceMut, SoAVec, StructOfArray, ToSoAVec, SoAAppendVec};
+    use std::ops::Bound;
+    pub fn push<T: StructOfArray, V: SoAVec<T>>(v: &mut V, e: T) { v.push(e) }
+    pub fn pop<T: StructOfArray, V: SoAVec<T>>(v: &mut V) -> Option<T> { v.pop() }
+    pub fn insert<T: StructOfArray, V: SoAVec<T>>(v: &mut V, i: usize, e: T) { v.insert(i, e) }
+    pub fn remove<T: StructOfArray, V: SoAVec<T>>(v: &mut V, i: usize) -> T { v.remove(i) }
+    pub fn swap_remove<T: StructOfArray, V: SoAVec<T>>(v: &mut V, i: usize) -> T { v.swap_remove(i) }
+    pub fn replace<T: StructOfArray, V: SoAVec<T>>(v: &mut V, i: usize, e: T) -> T { v.replace(i, e) }
+    pub fn truncate<T: StructOfArray, V: SoAVec<T>>(v: &mut V, n: usize) { v.truncate(n) }
+    pub fn clear<T: StructOfArray, V: SoAVec<T>>(v: &mut V) { v.clear() }
+    pub fn append<T: StructOfArray, V: SoAVec<T>>(v: &mut V, o: &mut V) { v.append(o) }
+    pub fn split_off<T: StructOfArray, V: SoAVec<T>>(v: &mut V, at: usize) -> V { v.split_off(at) }
+    pub fn new<T: StructOfArray, V: SoAVec<T>>() -> V { V::new() }
+    pub fn with_capacity<T: StructOfArray, V: SoAVec<T>>(n: usize) -> V { V::with_capacity(n) }
+    pub fn capacity<T: StructOfArray, V: SoAVec<T>>(v: &V) -> usize { v.capacity() }
+    pub fn reserve<T: StructOfArray, V: SoAVec<T>>(v: &mut V, n: usize) { v.reserve(n) }
+    pub fn reserve_exact<T: StructOfArray, V: SoAVec<T>>(v: &mut V, n: usize) { v.reserve_exact(n) }
+    pub fn shrink_to_fit<T: StructOfArray, V: SoAVec<T>>(v: &mut V) { v.shrink_to_fit() }
+    pub fn vlen<T: StructOfArray, V: SoAVec<T>>(v: &V) -> (usize, bool) { (v.len(), v.is_empty()) }
+    pub fn slen<T: StructOfArray, S: SoASlice<T>>(v: &S) -> (usize, bool) { (v.len(), v.is_empty()) }
+    pub fn smlen<T: StructOfArray, S: SoASliceMut<T>>(v: &S) -> (usize, bool) { (v.len(), v.is_empty()) }
+    // element access (usize only in the traits) and the provided first/last
+    pub fn vget<T: StructOfArray, V: SoAVec<T>>(v: &V, i: usize) -> Option<V::Ref<'_>> { v.get(i) }
+    pub fn vindex<T: StructOfArray, V: SoAVec<T>>(v: &V, i: usize) -> V::Ref<'_> { v.index(i) }
+    pub fn vget_mut<T: StructOfArray, V: SoAVec<T>>(v: &mut V, i: usize) -> Option<V::RefMut<'_>> { v.get_mut(i) }
+    pub fn vindex_mut<T: StructOfArray, V: SoAVec<T>>(v: &mut V, i: usize) -> V::RefMut<'_> { v.index_mut(i) }
+    pub fn vfirst<T: StructOfArray, V: SoAVec<T>>(v: &V) -> Option<V::Ref<'_>> { v.first() }
+    pub fn vlast<T: StructOfArray, V: SoAVec<T>>(v: &V) -> Option<V::Ref<'_>> { v.last() }
+    pub fn vfirst_mut<T: StructOfArray, V: SoAVec<T>>(v: &mut V) -> Option<V::RefMut<'_>> { v.first_mut() }
+    pub fn vlast_mut<T: StructOfArray, V: SoAVec<T>>(v: &mut V) -> Option<V::RefMut<'_>> { v.last_mut() }
+    pub fn sget<T: StructOfArray, S: SoASlice<T>>(v: &S, i: usize) -> Option<S::Ref<'_>> { v.get(i) }
+    pub fn sindex<T: StructOfArray, S: SoASlice<T>>(v: &S, i: usize) -> S::Ref<'_> { v.index(i) }
+    pub fn sfirst<T: StructOfArray, S: SoASlice<T>>(v: &S) -> Option<S::Ref<'_>> { v.first() }
+    pub fn slast<T: StructOfArray, S: SoASlice<T>>(v: &S) -> Option<S::Ref<'_>> { v.last() }
+    pub fn smget<T: StructOfArray, S: SoASliceMut<T>>(v: &S, i: usize) -> Option<S::Ref<'_>> { v.get(i) }
+    pub fn smindex<T: StructOfArray, S: SoASliceMut<T>>(v: &S, i: usize) -> S::Ref<'_> { v.index(i) }
+    pub fn smfirst<T: StructOfArray, S: SoASliceMut<T>>(v: &S) -> Option<S::Ref<'_>> { v.first() }
+    pub fn smlast<T: StructOfArray, S: SoASliceMut<T>>(v: &S) -> Option<S::Ref<'_>> { v.last() }
+    pub fn smget_mut<T: StructOfArray, S: SoASliceMut<T>>(v: &mut S, i: usize) -> Option<S::RefMut<'_>> { v.get_mut(i) }
+    pub fn smindex_mut<T: StructOfArray, S: SoASliceMut<T>>(v: &mut S, i: usize) -> S::RefMut<'_> { v.index_mut(i) }
+    pub fn smfirst_mut<T: StructOfArray, S: SoASliceMut<T>>(v: &mut S) -> Option<S::RefMut<'_>> { v.first_mut() }
+    pub fn smlast_mut<T: StructOfArray, S: SoASliceMut<T>>(v: &mut S) -> Option<S::RefMut<'_>> { v.last_mut() }
+    // range-bounds slicing
+    pub fn vslice<T: StructOfArray, V: SoAVec<T>>(v: &V, b: (Bound<usize>, Bound<usize>)) -> V::Slice<'_> { v.slice(b) }
+    pub fn vslice_mut<T: StructOfArray, V: SoAVec<T>>(v: &mut V, b: (Bound<usize>, Bound<usize>)) -> V::SliceMut<'_> { v.slice_mut(b) }
+    pub fn sslice<T: StructOfArray, S: SoASlice<T>>(v: &S, b: (Bound<usize>, Bound<usize>)) -> S::Slice<'_> { v.slice(b) }
+    pub fn smslice<T: StructOfArray, S: SoASliceMut<T>>(v: &S, b: (Bound<usize>, Bound<usize>)) -> S::Slice<'_> { v.slice(b) }
+    pub fn smslice_mut<T: StructOfArray, S: SoASliceMut<T>>(v: &mut S, b: (Bound<usize>, Bound<usize>)) -> S::SliceMut<'_> { v.slice_mut(b) }
+    pub fn vas_slice<T: StructOfArray, V: SoAVec<T>>(v: &V) -> V::Slice<'_> { v.as_slice() }
+    pub fn vas_mut_slice<T: StructOfArray, V: SoAVec<T>>(v: &mut V) -> V::SliceMut<'_> { v.as_mut_slice() }
+    pub fn sas_slice<T: StructOfArray, S: SoASlice<T>>(v: &S) -> S::Slice<'_> { v.as_slice() }
+    pub fn smas_slice<T: StructOfArray, S: SoASliceMut<T>>(v: &S) -> S::Slice<'_> { v.as_slice() }
+    pub fn smas_mut_slice<T: StructOfArray, S: SoASliceMut<T>>(v: &mut S) -> S::SliceMut<'_> { v.as_mut_slice() }
+    // iteration, sorting
+    pub fn viter<T: StructOfArray, V: SoAVec<T>>(v: &V) -> V::Iter<'_> { v.iter() }
+    pub fn viter_mut<T: StructOfArray, V: SoAVec<T>>(v: &mut V) -> V::IterMut<'_> { v.iter_mut() }
+    pub fn siter<T: StructOfArray, S: SoASlice<T>>(v: &S) -> S::Iter<'_> { v.iter() }
+    pub fn smiter<T: StructOfArray, S: SoASliceMut<T>>(v: &S) -> S::Iter<'_> { v.iter() }
+    pub fn smiter_mut<T: StructOfArray, S: SoASliceMut<T>>(v: &mut S) -> S::IterMut<'_> { v.iter_mut() }
+    pub fn vapply_index<T: StructOfArray, V: SoAVec<T>>(v: &mut V, idx: &[usize]) { v.apply_index(idx) }
+    pub fn smapply_index<T: StructOfArray, S: SoASliceMut<T>>(v: &mut S, idx: &[usize]) { v.apply_index(idx) }
+    pub fn to_vec<T: StructOfArray, S: ToSoAVec<T>>(s: &S) -> S::SoAVecType { s.to_vec() }
+    pub fn extend_from_slice<'a, T: StructOfArray, V: SoAAppendVec<T>>(v: &mut V, o: V::Slice<'a>) { v.extend_from_slice(o) }
+}
+
+pub fn parse_bound(s: &str) -> std::ops::Bound<usize> {
+    if s == "unb" { return std::ops::Bound::Unbounded; }
+    let (k, v) = s.split_once(':').expect("bound");
+    let v: usize = v.parse().expect("bound value");
+    match k { "inc" => std::ops::Bound::Included(v), "exc" => std::ops::Bound::Excluded(v), _ => panic!("bad bound") }
+}
+
 /// is every leaf span of `child` inside the corresponding leaf span of `parent`
 /// (spans: base address, length, element size), element-aligned
 pub fn within(parent: &[(usize, usize, usize)], child: &[(usize, usize, usize)]) -> bool {
@@ -125,7 +201,7 @@ macro_rules! interp {
                 let w: Vec<&str> = line.split_whitespace().collect();
                 let arg = |i: usize| -> usize { w[i].parse().expect("usize arg") };
                 // read-only observations do not reprint the registers (`regs=~` = unchanged)
-                let pure = matches!(w[0], "get" | "index" | "len" | "is_empty" | "view" | "iter" | "bounds" | "tget" | "ptr" | "refs");
+                let pure = matches!(w[0], "get" | "index" | "len" | "is_empty" | "view" | "iter" | "bounds" | "tget" | "tlen" | "ptr" | "refs");
                 let (ri, rs): (String, String) = match w[0] {
                     "new" => { let r = reg(w[1]);
                         (exec(0, || { regs[r] = $V::new(); }), exec(1, || { mirs[r] = Vec::new(); })) }
@@ -209,6 +285,74 @@ macro_rules! interp {
                             if getting { by_form!(form, a, b, ex, i => pos: opt(true, m.get(i).map(fr)), range: opt(true, m.get(i).map(fs))) }
                             else { by_form!(form, a, b, ex, i => pos: opt(false, Some(fr(&m[i]))), range: opt(false, Some(fs(&m[i])))) }
                         });
+                        (ri, rs) }
+                    // ---- the same operations dispatched through the generic traits (C09)
+                    "tpush" => { let r = reg(w[1]); let (a, b) = (mk(0, arg(2)), mk(1, arg(2)));
+                        (exec(0, || { tr::push::<T, $V>(&mut regs[r], a); }), exec(1, || { mirs[r].push(b); })) }
+                    "tpop" => { let r = reg(w[1]);
+                        (exec(0, || OptEl(tr::pop::<T, $V>(&mut regs[r]))), exec(1, || OptEl(mirs[r].pop()))) }
+                    "tinsert" => { let r = reg(w[1]); let (a, b) = (mk(0, arg(3)), mk(1, arg(3)));
+                        (exec(0, || { tr::insert::<T, $V>(&mut regs[r], arg(2), a); }), exec(1, || { mirs[r].insert(arg(2), b); })) }
+                    "tremove" => { let r = reg(w[1]);
+                        (exec(0, || El(tr::remove::<T, $V>(&mut regs[r], arg(2)))), exec(1, || El(mirs[r].remove(arg(2))))) }
+                    "tswap_remove" => { let r = reg(w[1]);
+                        (exec(0, || El(tr::swap_remove::<T, $V>(&mut regs[r], arg(2)))), exec(1, || El(mirs[r].swap_remove(arg(2))))) }
+                    "treplace" => { let r = reg(w[1]); let (a, b) = (mk(0, arg(3)), mk(1, arg(3)));
+                        (exec(0, || El(tr::replace::<T, $V>(&mut regs[r], arg(2), a))), exec(1, || { let i = arg(2); El(std::mem::replace(&mut mirs[r][i], b)) })) }
+                    "ttruncate" => { let r = reg(w[1]);
+                        (exec(0, || { tr::truncate::<T, $V>(&mut regs[r], arg(2)); }), exec(1, || { mirs[r].truncate(arg(2)); })) }
+                    "tclear" => { let r = reg(w[1]);
+                        (exec(0, || { tr::clear::<T, $V>(&mut regs[r]); }), exec(1, || { mirs[r].clear(); })) }
+                    "tappend" => { let (r, q) = (reg(w[1]), reg(w[2]));
+                        (exec(0, || { let (a, b) = two_mut(&mut regs, r, q); tr::append::<T, $V>(a, b); }),
+                         exec(1, || { let (a, b) = two_mut(&mut mirs, r, q); a.append(b); })) }
+                    "tsplit_off" => { let (r, q) = (reg(w[1]), reg(w[3]));
+                        (exec(0, || { let t = tr::split_off::<T, $V>(&mut regs[r], arg(2)); regs[q] = t; }),
+                         exec(1, || { let t = mirs[r].split_off(arg(2)); mirs[q] = t; })) }
+                    "tnew" => { let r = reg(w[1]);
+                        (exec(0, || { regs[r] = tr::new::<T, $V>(); }), exec(1, || { mirs[r] = Vec::new(); })) }
+                    // tlen r <vec|slice|slicemut>: len and is_empty through the trait
+                    "tlen" => { let r = reg(w[1]);
+                        (exec(0, || { let (l, e) = match w[2] { "vec" => tr::vlen::<T, $V>(&regs[r]), "slice" => tr::slen::<T, $S>(&regs[r].as_slice()), _ => tr::smlen::<T, $SM>(&regs[r].as_mut_slice()) }; format!("{}/{}", l, e) }),
+                         exec(1, || format!("{}/{}", mirs[r].len(), mirs[r].is_empty()))) }
+                    // tget r <kind> <get|index|get_mut|index_mut|first|last|first_mut|last_mut> [i]
+                    "tget" => { let r = reg(w[1]); let (kind, m) = (w[2], w[3]); let i = if w.len() > 4 { arg(4) } else { 0 };
+                        let ri = exec(0, || -> String {
+                            let fr = |x: $R<'_>| { let mut o = vec![]; <T as Shape>::rids(&x, &mut o); fmt_ids(&o) };
+                            let frm = |x: $RM<'_>| { let mut o = vec![]; <T as Shape>::rmids(&x, &mut o); fmt_ids(&o) };
+                            fn opt(x: Option<String>) -> String { match x { Some(s) => format!("some{}", s), None => "none".into() } }
+                            match (kind, m) {
+                                ("vec", "get") => opt(tr::vget::<T, $V>(&regs[r], i).map(fr)), ("vec", "index") => fr(tr::vindex::<T, $V>(&regs[r], i)),
+                                ("vec", "get_mut") => opt(tr::vget_mut::<T, $V>(&mut regs[r], i).map(frm)), ("vec", "index_mut") => frm(tr::vindex_mut::<T, $V>(&mut regs[r], i)),
+                                ("vec", "first") => opt(tr::vfirst::<T, $V>(&regs[r]).map(fr)), ("vec", "last") => opt(tr::vlast::<T, $V>(&regs[r]).map(fr)),
+                                ("vec", "first_mut") => opt(tr::vfirst_mut::<T, $V>(&mut regs[r]).map(frm)), ("vec", "last_mut") => opt(tr::vlast_mut::<T, $V>(&mut regs[r]).map(frm)),
+                                ("slice", "get") => opt(tr::sget::<T, $S>(&regs[r].as_slice(), i).map(fr)), ("slice", "index") => fr(tr::sindex::<T, $S>(&regs[r].as_slice(), i)),
+                                ("slice", "first") => opt(tr::sfirst::<T, $S>(&regs[r].as_slice()).map(fr)), ("slice", "last") => opt(tr::slast::<T, $S>(&regs[r].as_slice()).map(fr)),
+                                ("slicemut", "get") => opt(tr::smget::<T, $SM>(&regs[r].as_mut_slice(), i).map(fr)), ("slicemut", "index") => fr(tr::smindex::<T, $SM>(&regs[r].as_mut_slice(), i)),
+                                ("slicemut", "first") => opt(tr::smfirst::<T, $SM>(&regs[r].as_mut_slice()).map(fr)), ("slicemut", "last") => opt(tr::smlast::<T, $SM>(&regs[r].as_mut_slice()).map(fr)),
+                                ("slicemut", "get_mut") => opt(tr::smget_mut::<T, $SM>(&mut regs[r].as_mut_slice(), i).map(frm)), ("slicemut", "index_mut") => frm(tr::smindex_mut::<T, $SM>(&mut regs[r].as_mut_slice(), i)),
+                                ("slicemut", "first_mut") => opt(tr::smfirst_mut::<T, $SM>(&mut regs[r].as_mut_slice()).map(frm)), ("slicemut", "last_mut") => opt(tr::smlast_mut::<T, $SM>(&mut regs[r].as_mut_slice()).map(frm)),
+                                _ => panic!("bad tget"),
+                            } });
+                        let rs = exec(1, || -> String {
+                            let fr = |x: &T| { let mut o = vec![]; x.ids(&mut o); fmt_ids(&o) };
+                            fn opt(x: Option<String>) -> String { match x { Some(s) => format!("some{}", s), None => "none".into() } }
+                            let ms: &[T] = &mirs[r];
+                            match m { "get" | "get_mut" => opt(ms.get(i).map(fr)), "index" | "index_mut" => fr(&ms[i]),
+                                      "first" | "first_mut" => opt(ms.first().map(fr)), "last" | "last_mut" => opt(ms.last().map(fr)), _ => panic!("bad tget") } });
+                        (ri, rs) }
+                    // bounds r <vec|slice|slicemut> <shared|mut> <start bound> <end bound>: trait slice()/slice_mut() with any RangeBounds
+                    "bounds" => { let r = reg(w[1]); let (kind, mode) = (w[2], w[3]); let b = (parse_bound(w[4]), parse_bound(w[5]));
+                        let ri = exec(0, || -> String {
+                            let mut pspans = vec![]; <T as Shape>::vspans(&regs[r], &mut pspans);
+                            let fs = |x: $S<'_>| { let mut o = vec![]; <T as Shape>::scols(&x, &mut o); let mut sp = vec![]; <T as Shape>::sspans(&x, &mut sp); format!("{} inb={}", fmt_cols(&o), within(&pspans, &sp)) };
+                            let fsm = |x: $SM<'_>| { let mut o = vec![]; <T as Shape>::smcols(&x, &mut o); let mut sp = vec![]; <T as Shape>::smspans(&x, &mut sp); format!("{} inb={}", fmt_cols(&o), within(&pspans, &sp)) };
+                            match (kind, mode) {
+                                ("vec", "shared") => fs(tr::vslice::<T, $V>(&regs[r], b)), ("vec", "mut") => fsm(tr::vslice_mut::<T, $V>(&mut regs[r], b)),
+                                ("slice", "shared") => fs(tr::sslice::<T, $S>(&regs[r].as_slice(), b)),
+                                ("slicemut", "shared") => fs(tr::smslice::<T, $SM>(&regs[r].as_mut_slice(), b)), ("slicemut", "mut") => fsm(tr::smslice_mut::<T, $SM>(&mut regs[r].as_mut_slice(), b)),
+                                _ => panic!("bad bounds kind") } });
+                        let rs = exec(1, || -> String { let ms: &[T] = &mirs[r]; format!("{} inb=true", fmt_cols(&mirror_cols(&ms[b]))) });
                         (ri, rs) }
                     "clonefuse" => { arm_clone_fuse(w[1].parse().unwrap()); (exec(0, || {}), exec(1, || {})) }
                     _ => interp!(@clone $cl, w, regs, mirs, mk, arg, T, $V),
